@@ -287,6 +287,9 @@ class Gen:
         if op == "size":
             tgt = r.choice(["tstr", "uint"] + (["bstr"] if self.fmt == "cbor" else []))
             sizes = [0, 1, 2, 3, 4] if tgt != "uint" else [0, 1, 2, 3, 4, 7, 8, 8, 9, 16]
+            if tgt != "uint" and r.random() < 0.35:
+                lo_ = r.choice([0, 1, 2, 3])
+                return ctl("size", ref(tgt), rng(lit(C.mk_int(lo_)), lit(C.mk_int(lo_ + r.choice([0, 1, 2, 4]))), r.random() < 0.7))
             return ctl("size", ref(tgt), lit(C.mk_int(r.choice(sizes))))
         if op in ("lt", "le", "gt", "ge"):
             return ctl(op, ref(r.choice(["int", "uint", "nint"])), lit(C.mk_int(r.choice([-3, -1, 0, 1, 2, 10, 256]))))
@@ -349,9 +352,51 @@ class Gen:
             return arr([ent(T({"k": "unwrap", "n": n, "args": []})), ent(T(ref("bool")), 0, -1)])
         return ctl("default", ref(r.choice(["int", "tstr"])), lit(C.mk_int(1)))
 
+    def cbor_t1(self, d):
+        """CBOR-only constructs (profile 'cborx'): tagged types, major types, non-text map keys, big numbers"""
+        r = self.rnd
+        x = r.random()
+        if x < 0.25:
+            inner = T(self.scalar_t1()) if r.random() < 0.7 or d <= 0 else T(self.array(d - 1))
+            if r.random() < 0.8:
+                return {"k": "tag", "tagk": "lit", "tn": C.nat_bytes(r.choice([5, 100, 1000, 65536, 4294967296])), "t": inner}
+            return {"k": "tag", "tagk": "any", "t": inner}
+        if x < 0.45:
+            m = r.choice([(0, None), (1, None), (2, None), (3, None), (4, None), (5, None), (7, None), (7, 20), (7, 21), (7, 22), (7, 25), (7, 26), (7, 27), (0, 5), (1, 3)])
+            return {"k": "major", "mt": m[0], "has": m[1] is not None, "num": C.nat_bytes(m[1] or 0)}
+        if x < 0.6:
+            return ref(r.choice(["biguint", "bignint", "bigint", "integer", "unsigned"]))
+        if x < 0.7:
+            return ctl("size", ref("bstr"), lit(C.mk_int(r.choice([0, 1, 2, 3]))))
+        # a map with non-text keys
+        es = []
+        for _ in range(r.choice([1, 2])):
+            y = r.random()
+            lo, hi = r.choice([(1, 1), (0, 1)])
+            if y < 0.4:
+                key = kval(C.mk_int(r.choice([1, 2, -1, 1000]))) if r.random() < 0.5 else ktype(lit(C.mk_int(r.choice([1, 2, -1, 256]))), cut=r.random() < 0.5)
+            elif y < 0.6:
+                key = ktype(lit(C.mk_bytes(r.choice([b"", b"a", b"\x01\x02"]))), cut=r.random() < 0.5)
+            else:
+                key = ktype(lit(C.mk_text(r.choice(["a", "b"]))), cut=r.random() < 0.5)
+            es.append(ent(T(self.scalar_t1()), lo, hi, key))
+        # distinct literal keys only
+        seen, es2 = set(), []
+        for e in es:
+            ks = json.dumps(e["key"], sort_keys=True)
+            kv = json.dumps(e["key"].get("v") or e["key"].get("t", {}).get("v"), sort_keys=True)
+            if kv not in seen:
+                seen.add(kv)
+                es2.append(e)
+        if r.random() < 0.4:
+            es2.append(ent(T(self.scalar_t1()), 0, -1, ktype(ref(r.choice(["int", "uint", "bstr", "tstr"])), cut=False)))
+        return mp(es2)
+
     def t1(self, d):
         r = self.rnd
         x = r.random()
+        if self.profile == "cborx" and self.fmt == "cbor" and r.random() < 0.3:
+            return self.cbor_t1(d)
         if self.profile == "shared" and r.random() < 0.18:
             return self.ext_t1(d)
         if d <= 0 or x < 0.35:
@@ -421,6 +466,9 @@ class Gen:
                 # wildcard table last (the documented idiom)
                 vt = self.type(d - 1)
                 es.append(ent(vt, 0, -1, ktype(ref("tstr"), cut=False)))
+            elif r.random() < 0.12:
+                # a single type-keyed member, required or optional ('tstr => T', '? tstr => T')
+                es.append(ent(self.type(d - 1), r.choice([0, 1]), 1, ktype(ref("tstr"), cut=False)))
             galts.append(es)
         if len(galts) > 1:
             galts = [g if g else [self.map_entry(d, "a")] for g in galts]
@@ -493,6 +541,12 @@ class Inst:
             return C.mk_text(r.choice(["a", "b", "", "ab", "é", "x y", "abc"]))
         if n in ("bstr", "bytes"):
             return C.mk_bytes(r.choice([b"", b"a", b"\x01\x02", b"abc"]))
+        if n in ("biguint", "bignint", "bigint", "integer", "unsigned"):
+            big = C.mk_tag(2 if n in ("biguint", "unsigned") or (n in ("bigint", "integer") and r.random() < 0.5) else 3,
+                           C.mk_bytes(r.choice([b"\x01", b"\x01\x00\x00\x00\x00\x00\x00\x00\x00", b"", b"\x00\x01"])))
+            if n in ("integer", "unsigned") and r.random() < 0.5:
+                return C.mk_int(abs(r.choice(ints)) if n == "unsigned" else r.choice(ints))
+            return big
         if n == "bool":
             return C.mk_bool(r.random() < 0.5)
         if n == "true":
@@ -547,6 +601,13 @@ class Inst:
         if k == "ctl":
             op = t["op"]
             a = t["arg"]["v"] if t["arg"]["k"] == "lit" else None
+            if op == "size" and t["arg"]["k"] == "range" and t["arg"]["lo"]["k"] == "lit" and t["arg"]["hi"]["k"] == "lit":
+                lo_, hi_ = C.int_val(t["arg"]["lo"]["v"]), C.int_val(t["arg"]["hi"]["v"])
+                n = max(0, r.choice([lo_, hi_, hi_ + 1, lo_ - 1, (lo_ + hi_) // 2]))
+                if t["t"].get("n") in ("bstr", "bytes"):
+                    return C.mk_bytes(b"x" * n)
+                # n BYTES of UTF-8, as many two- / three-byte characters as fit (characters < bytes)
+                return C.mk_text(r.choice(["a" * n, "\u00e9" * (n // 2) + "a" * (n % 2), "\u65e5" * (n // 3) + "a" * (n % 3)]))
             if op == "size" and a is not None and a["k"] == "int":
                 n = C.int_val(a)
                 tn = t["t"].get("n")
@@ -564,6 +625,29 @@ class Inst:
             return self.of_t1(t["t"])
         if k == "any":
             return self.junk()
+        if k == "tag":
+            n = C.bytes_nat(t["tn"]) if t["tagk"] == "lit" else r.choice([5, 7, 100])
+            if r.random() < 0.15:
+                n = r.choice([n + 1, 6, 2])
+            return C.mk_tag(n, self.of_type(t["t"]))
+        if k == "major":
+            mt, has, num = t["mt"], t["has"], C.bytes_nat(t["num"])
+            if mt == 0:
+                return C.mk_int(num if has else r.choice([0, 1, 23, 24, 255, 256, 2**32, 2**64 - 1]))
+            if mt == 1:
+                return C.mk_int(-1 - num if has else r.choice([-1, -24, -25, -256, -257, -2**32, -2**64]))
+            if mt == 2:
+                return C.mk_bytes(r.choice([b"", b"a", b"\x01\x02"]))
+            if mt == 3:
+                return C.mk_text(r.choice(["", "a", "ab"]))
+            if mt == 4:
+                return C.mk_arr([self.junk() for _ in range(r.choice([0, 1, 2]))])
+            if mt == 5:
+                return C.mk_map([(C.mk_text("a"), self.junk())] if r.random() < 0.5 else [])
+            if mt == 7:
+                if not has:
+                    return r.choice([C.mk_bool(True), dict(C.NULL), C.mk_float(1.5), {"k": "simple", "sn": 32}])
+                return {20: C.mk_bool(False), 21: C.mk_bool(True), 22: dict(C.NULL), 25: C.mk_float(1.5), 26: C.mk_float(0.1), 27: C.mk_float(1.1)}.get(num, dict(C.NULL))
         return self.junk()
 
     def count(self, lo, hi):
@@ -619,6 +703,10 @@ class Inst:
                     kv = self.key_value(e["key"])
                     if e["key"]["kk"] == "type" and e["key"]["t"].get("n") in ("tstr", "text"):
                         kv = C.mk_text(self.rnd.choice(["w", "x", "y", "z", "a"]))
+                    elif e["key"]["kk"] == "type" and e["key"]["t"].get("n") in ("int", "uint"):
+                        kv = C.mk_int(self.rnd.choice([0, 1, 2, 7, 1000, 256]))
+                    elif e["key"]["kk"] == "type" and e["key"]["t"].get("n") in ("bstr", "bytes"):
+                        kv = C.mk_bytes(self.rnd.choice([b"", b"k", b"\x01\x02"]))
                     ks = json.dumps(kv, sort_keys=True)
                     if ks in seen:
                         continue
@@ -683,6 +771,15 @@ def mutate(rnd, v, fmt, depth=0):
         j = i + rnd.choice([-1, 1, -i * 2 - 1, 256])
         j = max(-(1 << 63), min(j, (1 << 64) - 1))
         return C.mk_int(j)
+    if k == "tag" and x < 0.7:
+        if rnd.random() < 0.4:
+            return C.mk_tag(C.bytes_nat(v["tn"]) + rnd.choice([1, -1 if C.bytes_nat(v["tn"]) > 0 else 1, 1000]), v["c"])
+        if rnd.random() < 0.5:
+            return v["c"]
+        return C.mk_tag(C.bytes_nat(v["tn"]), mutate(rnd, v["c"], fmt, depth + 1))
+    if k == "bytes" and x < 0.6:
+        b = bytes(v["bs"])
+        return rnd.choice([C.mk_bytes(b + b"x"), C.mk_bytes(b[:-1]), C.mk_text(b.decode("latin-1"))])
     if k == "text" and x < 0.6:
         s = C.text_val(v)
         return C.mk_text(rnd.choice([s + "x", s[:-1], s.upper(), "é" + s]))
